@@ -104,9 +104,21 @@ def graph_patch_part(ctx, sigs):
             ctx.count()
             judged += 1
             ctx.distinct((repr(spec), repr(patches)))
-            want = rp.loads(data)
-            ref_apply(want, copy.deepcopy(patches))
             case = {'spec': spec, 'patches': patches}
+            try:
+                want = rp.loads(data)       # the same unpatched load succeeded a moment ago
+            except BaseException as e:  # noqa
+                sig = 'GRAPH/load-depends-on-history/unpatched-load-fails-after-earlier-loads/%s' % type(e).__name__
+                sigs[sig] = sigs.get(sig, 0) + 1
+                ctx.outcome('patch:reference-load-fails')
+                ctx.violation(sig, case, repr(e)[:200], 'every loads call is independent of earlier ones', engine='GRAPH')
+                # isolate the following cases from this thread's residue
+                RS = __import__('pyworkers._remote_pickle.state', fromlist=['RemoteState']).RemoteState
+                for attr in ('stack', 'iter', 'unused'):
+                    if hasattr(RS._active_contexts, attr):
+                        delattr(RS._active_contexts, attr)
+                continue
+            ref_apply(want, copy.deepcopy(patches))
             try:
                 got = rp.loads(data, extra_kwargs=copy.deepcopy(patches))
             except BaseException as e:  # noqa
